@@ -58,11 +58,25 @@ def ubTerms (h : Header) : Nat := siteVal (site_NLReader_ReadLinearExpr_2_ub (hd
 def itemsSeg (h : Header) (letter : Nat) : Nat := siteVal (itemsOfSegment (hdrOf h) letter)
 /-- `num_items()` of the item handler `ReadSuffix` is instantiated with for a suffix kind -/
 def itemsSuffix (h : Header) (kind : Nat) : Nat := siteVal (itemsOfSuffixKind (hdrOf h) kind)
+/-- `ReadUInt(int &accumulator)`: the caller's variable after the call (generated from the assignments to the parameter;
+    unchanged if the parameter is not a reference) -/
+def accNext (acc v : Nat) : Nat := siteVal (acc_next acc v)
+/-- `ReadUInt(int &accumulator)`: the returned value -/
+def accValue (acc v : Nat) : Nat := siteVal (acc_value acc v)
+/-- `ReadHeader`: `int max_vars = header.num_vars`, the variable the five common-expression counts are accumulated in -/
+def accInit (h : Header) : Nat := siteVal (acc_init (hdrOf h))
 end Site
 
 -- outside these definitions the site bounds are not unfolded by unification (their content is used only through the lemmas
 -- above and the `C02_gen_site_*` theorems); they still compute in the driver
 attribute [irreducible] Site.ubC Site.ubL Site.ubO Site.lbV Site.ubV Site.ubF Site.ubRef Site.ubCall Site.ubTermVar
-  Site.lbTerms Site.ubTerms Site.itemsSeg Site.itemsSuffix
+  Site.lbTerms Site.ubTerms Site.itemsSeg Site.itemsSuffix Site.accNext Site.accValue Site.accInit
+
+/-- `TextReader::ReadUInt(int &accumulator)`: returns the value read and the new value of the caller's variable; both are
+    the generated `acc_value` / `acc_next` (data flow of the C++ function body), the guard is `G.accOverflow` -/
+def tReadUIntAcc (inp : Inp) (acc : Nat) : L (Nat × Nat) := do
+  let v ← tReadUInt inp
+  if G.accOverflow acc v then tReport inp .ioverflow
+  else pure (Site.accValue acc v, Site.accNext acc v)
 
 end MpVerif.C02
